@@ -11,7 +11,8 @@
                    swap, add, re-forging of the links), set_run_signals_to_dag_execution
      workflow.py   Workflow.replace_child / _rebuild_data_io (IO maps)
      topology.py   nodes_to_data_digraph, _set_new_run_connections_with_fallback_recovery,
-                   _set_run_connections_according_to_dag
+                   _set_run_connections_according_to_dag / _linear_dag, get_nodes_in_data_tree
+     node.py       Node.run_data_tree up to a refused flow derivation (temporary labels, restore)
 
    A world [W] is the static description of every channel; channel ids are positions in [W].
    The mutable graph: ordered partner list / value / value receiver per channel, parent and
@@ -687,6 +688,41 @@ Definition wire (st : state) (orders : list (list nat)) : state * wres :=
       end
   end.
 
+(* ---- node.py: the flow derivation of a pull (Node.run_data_tree up to the point the upstream runs start) --- *)
+(* get_nodes_in_data_tree as a set (work-list; enough fuel for every duplicate-free store) *)
+Fixpoint closure (fuel : nat) (s : cstore) (front seen : list nat) : list nat :=
+  match fuel with
+  | 0 => seen
+  | S f => match front with
+           | [] => seen
+           | v :: r => if memn v seen then closure f s r seen
+                       else closure f s (r ++ ups s v) (seen ++ [v])
+           end
+  end.
+Definition cfuel : nat := S (List.length W * List.length W + List.length W).
+Definition data_tree (s : cstore) (n : nat) : list nat := closure cfuel s [n] [].
+(* its recursion does not end (RecursionError -> CircularDataFlowError) iff a cycle is reachable upstream *)
+Definition cyclic_up (s : cstore) (n : nat) : bool :=
+  existsb (fun v => memn v (closure cfuel s (ups s v) [])) (data_tree s n).
+
+(* run_data_tree: the data tree; every node of it gets the temporary label `label + str(id(node))` (unique, so
+   every upstream owner is found under its label); set_run_connections_according_to_linear_dag: break the run /
+   ran connections of the tree (in the iteration order [order] of the *set* of tree nodes), refuse a tree that is
+   not a set of siblings (ValueError), restore; `except Exception`: give every node its label back.
+   The temporary labels are not represented: they are gone again in every outcome modelled here.
+   WOk = the derivation succeeded and the pull goes on to run nodes (not modelled). *)
+Definition pull_derive (st : state) (target : nat) (order : list nat) : state * wres :=
+  let s := cn st in
+  if cyclic_up s target then (st, WErr CircErr WGraph)
+  else
+    let tree := arrange order (data_tree s target) in
+    let '(s1, pairs) := disc_phase s tree in
+    if same_parents st tree then (st, WOk)
+    else match restore s1 (fc st) pairs with
+         | (s2, k2, Ok) => (with_cn st s2 k2, WErr ValueErr WGraph)
+         | (s2, k2, Err e2) => (with_cn st s2 k2, WErr e2 WRestore)
+         end.
+
 (* ---- observation ------------------------------------------------------------------------- *)
 Definition exn_code (e : exn) : Z :=
   match e with
@@ -704,7 +740,7 @@ Definition optnat_obs (x : option nat) : obs :=
   match x with None => OZ (-1) | Some n => on n end.
 
 (* the structural snapshot: children, labels, parents, starting nodes, ordered connection lists
-   of every channel, values, value receivers *)
+   of every channel, values, value receivers, children keys *)
 Definition snapshot (nn : nat) (st : state) : obs :=
   OL [OL (map on (kids st));
       OL (map (fun n => on (lab st n)) (seq 0 nn));
@@ -712,7 +748,8 @@ Definition snapshot (nn : nat) (st : state) : obs :=
       OL (map on (start st));
       OL (map (fun c => OL (map on (cn st c))) ids);
       OL (map (fun c => val_obs (vl st c)) (filter is_data ids));
-      OL (map (fun c => optnat_obs (rc st c)) (filter is_data ids))].
+      OL (map (fun c => optnat_obs (rc st c)) (filter is_data ids));
+      OL (map (fun n => on (lab st n)) (kids st))].       (* the keys the children are held under *)
 
 End Model.
 
@@ -721,7 +758,8 @@ Inductive op :=
 | OCopyConns (a o : nat)                               (* a.copy_connections(o) *)
 | OCopyIO (dst src : nat) (cfh vfh : bool)             (* dst.copy_io(src, cfh, vfh) *)
 | OReplace (old new : nat) (cls : bool)                (* comp.replace_child(old, new | type(new)) *)
-| OWire (orders : list (list nat)).                    (* comp.set_run_signals_to_dag_execution() *)
+| OWire (orders : list (list nat))                     (* comp.set_run_signals_to_dag_execution() *)
+| OPull (target : nat) (order : list nat).             (* target.pull(): the flow derivation of run_data_tree *)
 
 Fixpoint assoc_fun {A} (l : list (nat * A)) (d : A) : nat -> A :=
   match l with
@@ -768,13 +806,18 @@ Definition step (W : world) (comp : nat) (wm : option (list wentry)) (st : state
       | (st1, WOk) => (st1, OZ 0)
       | (st1, WErr e _) => (st1, OZ (exn_code e))
       end
+  | OPull target order =>
+      match pull_derive W st target order with
+      | (st1, WOk) => (st1, OZ 0)
+      | (st1, WErr e _) => (st1, OZ (exn_code e))
+      end
   end.
 
-(* observation of a case: outcome, snapshot before, snapshot after (a RecursionError leaves a
-   depth-dependent graph: only the outcome is compared) *)
+(* observation of a case: outcome, snapshot before, snapshot after *)
 Definition run_case (W : world) (nn comp : nat) (wm : option (list wentry)) (st : state) (o : op) : obs :=
   let '(st1, code) := step W comp wm st o in
-  match code with
-  | OZ 11%Z => OL [code; snapshot W nn st]
-  | _ => OL [code; snapshot W nn st; snapshot W nn st1]
+  match o, code with
+  | _, OZ 11%Z => OL [code; snapshot W nn st]
+  | OPull _ _, OZ 0%Z => OL [code; snapshot W nn st]      (* the derivation succeeded: what the run does is not modelled *)
+  | _, _ => OL [code; snapshot W nn st; snapshot W nn st1]
   end.
